@@ -59,6 +59,10 @@ CHECKS = {
    technique="runtime monitoring under schedule perturbation: massive result compared with the simple result of the same build (exact block cover, multisets, per-root walk order, jail snapshots, error-iff) across GOMAXPROCS values, yielding/slow user I/O and seeded delays at verifPoint hooks with recorded event traces; race detector in the thorough tier",
    text="2400 (quick) / 20000 (thorough) seeded scenarios - documents with 1-40 roots in every spelling incl. # headings and leading blank lines, a quarter malformed, one of 9 operations each - are run once in simple mode and 10-20 times in massive mode under GOMAXPROCS 1/2/4/16 and five perturbation profiles; each massive execution must be a permutation of the simple result's root blocks (contiguous and intact), the same JSON/YAML multiset, the same walk rows with per-root order, the same filesystem and verdict, and fail iff simple fails. Evidence counts distinct (scenario, hook-event order) pairs and the hook points reached.",
    note="Only interleavings actually produced are judged. Error texts are not compared. Known finding KF-C10-1: a massive mkdir that fails has already created other roots."),
+ "C13": dict(level="exploration", design="DESIGN.md §4 C13",
+   technique="runtime monitoring: client-boundary history recorder + porcupine linearizability checker against a sequential specification (the reference model), partitioned by tree; exhaustive small sequential histories, random histories, multi-goroutine histories with hand-off on the race-detector build",
+   text="Every sequential call history up to length 8 (quick) / 9 (thorough) over NewRoot/Add/operation on up to two live trees (229k / 2M histories, executed back to back in one process so package-level state left by earlier histories is part of the exploration), random histories of 20-200 calls, and histories split across 2-8 goroutines with trees handed over through a channel and concurrent independent From-Markdown calls are recorded and checked per tree with porcupine: every operation's result (text with 3 branch tuples, walk, iterator, JSON, dry-run, mkdir delta, verify) must be the model's result for the tree as built so far, and Add must report new/existing as the model says. The concurrent workload also runs under the race detector.",
+   note="No two goroutines touch the same tree at the same time. Only client-visible results are judged (no internal invariant such as index uniqueness)."),
 }
 PENDING = {}
 ids = [json.loads(l)["id"] for l in open("/verif/properties.jsonl")]
